@@ -9,6 +9,7 @@ import (
 	"reflect"
 	"regexp"
 	"sort"
+	"strconv"
 	"strings"
 	"time"
 
@@ -27,7 +28,7 @@ func init() { register(c01{}) }
 
 func (c01) ID() string { return "C01" }
 func (c01) Rule() string {
-	return "records of the core writable domain from generator M4 (locus names, the five molecules, both topologies, optional 3-letter division, every kind of valid calendar date incl. 29-FEB and month ends, definitions with/without line breaks and trailing period, accession/version, 0..3 DBLINK pairs incl. empty values, keywords and taxonomy long enough to wrap, SOURCE/ORGANISM, 0..3 references with every sub-field optional, multi-line comments, extra fields, CONTIG-only records, sequence lengths 0..N incl. 1,9,10,11,59,60,61, feature tables of 0..n features with arbitrary INSDC locations and quoted/literal/toggle/multi-line/empty qualifiers), the real corpus (seqio/testdata), and records reached from those by pipelines of 1..4 operations drawn from insert/embed/delete/erase/slice(wrap-around too)/rotate/reverse/complement/concat (a step that panics belongs to another property: skipped and counted). For each record: write (w1) -> read -> write (w2): the reader accepts w1 and yields exactly one record, residues equal, feature table equal (keys, printed locations and atoms, qualifier names/values/order), every header field equal, w2 == w1 byte for byte; streams of 1..5 records: record j reads identically to the same record alone; after every parse the qualifier-name registries are sorted, pairwise disjoint and monotone. Also through the CLI: gts reverse | gts complement on w1 must both exit 0 and be read back. non-trivial: >=1 feature or CONTIG, and an optional field set; distinct: hash of w1. Unquoted qualifier values take the INSDC forms too (parenthesised, with a line break behind balanced and behind open parentheses); extra fields may have no value. Keyword and taxonomy lists may end in an entry with a period of its own; the word pool holds % signs. A sixth of the records are spelled with protein letters and the symbols * - . (residues like any other). DBLINK identifiers may hold colons; feature keys with an apostrophe or a hyphen (5'UTR, D-loop, -10_signal)."
+	return "records of the core writable domain from generator M4 (locus names, the five molecules, both topologies, optional 3-letter division, every kind of valid calendar date incl. 29-FEB and month ends, definitions with/without line breaks and trailing period, accession/version, 0..3 DBLINK pairs incl. empty values, keywords and taxonomy long enough to wrap, SOURCE/ORGANISM, 0..3 references with every sub-field optional, multi-line comments, extra fields, CONTIG-only records, sequence lengths 0..N incl. 1,9,10,11,59,60,61, feature tables of 0..n features with arbitrary INSDC locations and quoted/literal/toggle/multi-line/empty qualifiers), the real corpus (seqio/testdata), and records reached from those by pipelines of 1..4 operations drawn from insert/embed/delete/erase/slice(wrap-around too)/rotate/reverse/complement/concat (a step that panics belongs to another property: skipped and counted). For each record: write (w1) -> read -> write (w2): the reader accepts w1 and yields exactly one record, residues equal, feature table equal (keys, printed locations and atoms, qualifier names/values/order), every header field equal, w2 == w1 byte for byte; streams of 1..5 records: record j reads identically to the same record alone; after every parse the qualifier-name registries are sorted, pairwise disjoint and monotone. Also through the CLI: gts reverse | gts complement on w1 must both exit 0 and be read back. non-trivial: >=1 feature or CONTIG, and an optional field set; distinct: hash of w1. Unquoted qualifier values take the INSDC forms too (parenthesised, with a line break behind balanced and behind open parentheses); extra fields may have no value. Keyword and taxonomy lists may end in an entry with a period of its own; the word pool holds % signs. A sixth of the records are spelled with protein letters and the symbols * - . (residues like any other). DBLINK identifiers may hold colons; feature keys with an apostrophe or a hyphen (5'UTR, D-loop, -10_signal). In the CLI pipelines a printed join that the reader reduces further (the listed finding join-reduction-not-idempotent) is attributed by the same deviation model as at library level."
 }
 func (c01) RequiredBuckets(tier string) []string {
 	return []string{"origin:generated", "origin:corpus", "origin:pipeline", "table:empty", "table:nonempty", "record:contig-only", "record:empty-sequence", "date:feb29", "stream:1", "stream:5",
@@ -881,6 +882,10 @@ func (m c01) cliPipe(c *fw.Ctx, ws [][]byte) {
 				again.Write(w)
 			}
 			if wok && !bytes.Equal(again.Bytes(), a.Stdout) {
+				if c.KFEnabled("join-reduction-not-idempotent") && c01OnlyJoinsReducedFurther(a.Stdout, again.Bytes()) {
+					c.Known("join-reduction-not-idempotent", enc)
+					continue
+				}
 				c.Violate("cli:output-not-a-fixed-point:"+st.args[0], enc, clipS(string(a.Stdout), 3000), clipS(again.String(), 3000))
 				continue
 			}
@@ -900,4 +905,138 @@ func (m c01) cliPipe(c *fw.Ctx, ws [][]byte) {
 			}
 		}
 	}
+}
+
+// c01LiteralLoc reads a location text as it stands - no reduction, a literal
+// value - so that what gts printed can be compared with what it reads back.
+func c01LiteralLoc(s string) (gts.Location, bool) {
+	pos := 0
+	var parse func() (gts.Location, bool)
+	num := func() (int, bool) {
+		st := pos
+		for pos < len(s) && s[pos] >= '0' && s[pos] <= '9' {
+			pos++
+		}
+		if st == pos {
+			return 0, false
+		}
+		n, err := strconv.Atoi(s[st:pos])
+		return n, err == nil
+	}
+	list := func() ([]gts.Location, bool) {
+		var out []gts.Location
+		for {
+			l, ok := parse()
+			if !ok {
+				return nil, false
+			}
+			out = append(out, l)
+			if pos < len(s) && s[pos] == ',' {
+				pos++
+				continue
+			}
+			if pos < len(s) && s[pos] == ')' {
+				pos++
+				return out, true
+			}
+			return nil, false
+		}
+	}
+	parse = func() (gts.Location, bool) {
+		switch {
+		case strings.HasPrefix(s[pos:], "complement("):
+			pos += len("complement(")
+			l, ok := parse()
+			if !ok || pos >= len(s) || s[pos] != ')' {
+				return nil, false
+			}
+			pos++
+			return gts.Complemented{Location: l}, true
+		case strings.HasPrefix(s[pos:], "join("):
+			pos += len("join(")
+			ll, ok := list()
+			return gts.Joined(ll), ok
+		case strings.HasPrefix(s[pos:], "order("):
+			pos += len("order(")
+			ll, ok := list()
+			return gts.Ordered(ll), ok
+		}
+		p5 := false
+		if pos < len(s) && s[pos] == '<' {
+			p5 = true
+			pos++
+		}
+		a, ok := num()
+		if !ok {
+			return nil, false
+		}
+		switch {
+		case strings.HasPrefix(s[pos:], ".."):
+			pos += 2
+			p3 := false
+			if pos < len(s) && s[pos] == '>' {
+				p3 = true
+				pos++
+			}
+			b, ok := num()
+			if !ok || b < a {
+				return nil, false
+			}
+			return gts.Ranged{Start: a - 1, End: b, Partial: gts.Partial{Partial5: p5, Partial3: p3}}, true
+		case pos < len(s) && s[pos] == '^':
+			pos++
+			if _, ok := num(); !ok {
+				return nil, false
+			}
+			return gts.Between(a), true
+		case pos < len(s) && s[pos] == '.':
+			pos++
+			b, ok := num()
+			if !ok {
+				return nil, false
+			}
+			return gts.Ambiguous{a - 1, b}, true
+		}
+		if p5 {
+			return nil, false
+		}
+		return gts.Point(a - 1), true
+	}
+	l, ok := parse()
+	return l, ok && pos == len(s)
+}
+
+var c01KeyLine = regexp.MustCompile(`^     (\S+) +(\S+)$`)
+
+// c01OnlyJoinsReducedFurther: two flat-file texts differ in the location column
+// of feature key lines only, and every such pair is the listed deviation
+// join-reduction-not-idempotent (the reader re-joins a printed join that still
+// holds a repeated residue; same residues, other print).
+func c01OnlyJoinsReducedFurther(a, b []byte) bool {
+	la, lb := strings.Split(string(a), "\n"), strings.Split(string(b), "\n")
+	if len(la) != len(lb) {
+		return false
+	}
+	n := 0
+	for i := range la {
+		if la[i] == lb[i] {
+			continue
+		}
+		ma, mb := c01KeyLine.FindStringSubmatch(la[i]), c01KeyLine.FindStringSubmatch(lb[i])
+		if ma == nil || mb == nil || ma[1] != mb[1] {
+			return false
+		}
+		x, ok1 := c01LiteralLoc(ma[2])
+		y, ok2 := c01LiteralLoc(mb[2])
+		if !ok1 || !ok2 {
+			return false
+		}
+		raw := model.Bases(model.Den(x))
+		xa, ya := model.CollapseDups(raw), model.CollapseDups(model.Bases(model.Den(y)))
+		if !model.EqualAtoms(xa, ya) || len(xa) == len(raw) || !model.OnlyRepeatedPointsRemoved(model.Parts(x), model.Parts(y)) {
+			return false
+		}
+		n++
+	}
+	return n > 0
 }
